@@ -2,6 +2,8 @@
 import simnet
 from refserver import RefServer
 
+EXTRA_PROPS = ['C14Compose']
+
 RULE = ("fault origins (early listener, ordinary listener, built-in reaction via a login disconnect, "
         "decoder via a truncated packet, exit callback) x handler chains of 0..4 handlers with random "
         "type filters over an exception hierarchy, early flags, return/raise behaviour x final handler in "
@@ -339,6 +341,9 @@ def run(ctx):
     for line, mo, g in zip(lines, ctx.driver.ask(lines), impl):
         if mo != g:
             ctx.disagree('_handle_exception', line[-200:], mo, g)
+    # ---- Model/C14Compose.lean (driver `thread`): the real NetworkingThread.run & co. on a scripted connection
+    from corr import c14compose
+    c14compose.run(ctx)
 
 
 def replay(ctx, rp):
